@@ -12,6 +12,7 @@ JOBS = 14
 
 BASES = [2, 3, 8, 10, 16, 36]
 MODES = "ZAUDEH"
+FFLAGS = ["-", "+", "0", "+0", "<", "^", ">", "*<", "*^", "*>", "+*^", "0<"]
 MARKERS = {10: "eE@", 2: "bB@", 8: "oO@", 16: "hH@", 3: "@", 36: "@"}
 # base pairs instantiated in the harness
 PAIRS = [(2, 10), (10, 2), (2, 16), (16, 2), (2, 8), (8, 2), (10, 16), (16, 10), (3, 10), (10, 3), (2, 3), (3, 2), (36, 10), (10, 36), (8, 16)]
@@ -187,9 +188,44 @@ def gen_fmt(rng, tier):
         w = rng.choice([None, None, None, 0, 3, tot - 2, tot, tot + 1, tot + 4, 12])
         if w is not None and w < 0:
             w = None
-        plus = rng.choice(["-", "-", "+"])
+        plus = rng.choice(["-", "-", "+"]) if w is None else rng.choice(FFLAGS)
         yield Case("f.fmt", [kind, "none" if p is None else dec(p), "none" if w is None else dec(w), plus, farg(b, s, e, prec, mode)],
                    nontrivial=p is not None or w is not None)
+    # Binary / Octal / LowerHex / UpperHex (scientific form in the trait's base; hexadecimal form 0xh.hhhp±e for base 2)
+    for _ in range(300 if tier == "quick" else 12000):
+        kind, b = rng.choice([("bin", 2), ("oct", 8), ("lhex", 16), ("uhex", 16), ("lhex", 2), ("uhex", 2), ("lhex", 2)])
+        mode = rng.choice(MODES)
+        s, e, prec = rand_float(rng, b, tier)
+        if abs(e) > 400:
+            e = rng.choice([-400, 400, -50, 50])
+        nd = ndigits(s, b)
+        hexd = (nd + 3) // 4 if (b == 2 and kind != "bin") else nd
+        p = rng.choice([None, None, 0, 1, 2, max(0, hexd - 1), max(0, hexd - 2), hexd, hexd + 2])
+        if p is not None and rng.random() < 0.4:
+            # all-ones / all-nines significands: the rounding carries into a new digit
+            k = rng.choice([1, 2, 3, 4, 5, 8, 9, 13])
+            s = (b ** k - 1) * rng.choice([1, -1])
+            s, e = norm(s, rng.choice([0, -1, -k, 3]), b)
+            prec = k
+            kk = (k + 3) // 4 if (b == 2 and kind != "bin") else k
+            p = rng.choice([0, 1, max(0, kk - 1), max(0, kk - 2), kk])
+        tot = hexd + 6
+        w = rng.choice([None, None, 0, 3, tot, tot + 1, tot + 5, 24])
+        fl = rng.choice(["-", "-", "+"]) if w is None else rng.choice(FFLAGS)
+        yield Case("f.fmt", [kind, "none" if p is None else dec(p), "none" if w is None else dec(w), fl, farg(b, s, e, prec, mode)],
+                   nontrivial=True)
+    # Debug of FBig and Repr (plain and pretty): significands on both sides of the two-word boundary of the integer Debug form
+    for _ in range(120 if tier == "quick" else 4000):
+        b = rng.choice(BASES)
+        mode = rng.choice(MODES)
+        kind = rng.choice(["dbg", "dbga", "rdbg", "rdbga"])
+        bits = rng.choice([0, 1, 5, 63, 64, 65, 127, 128, 129, 130, 200, 700])
+        s = 0 if bits == 0 else rng.choice([(1 << bits) - 1, 1 << (bits - 1), (1 << (bits - 1)) | rng.getrandbits(bits - 1)])
+        if rng.random() < 0.5:
+            s = -s
+        s, e = norm(s, rng.choice([0, 1, -1, -7, 30, -300]), b)
+        prec = ndigits(s, b) + rng.choice([0, 0, 3]) if s else rng.choice([0, 5])
+        yield Case("f.fmt", [kind, "none", "none", "-", farg(b, s, e, prec, mode)], nontrivial=bits > 64)
     # tiny non-zero values printed with {:.N}: the directed modes must still round away from / toward zero as the mode says
     #    (Up/Away of a tiny positive value is 0.0..01, Down/Away of a tiny negative one is -0.0..01), all six modes, both signs
     for b in (BASES if tier == "thorough" else [2, 10, 36]):
@@ -268,6 +304,25 @@ def gen_conv(rng, tier):
                     if s and abs(e3) <= THRESH and abs(e3) >= 18:
                         need = ndigits(abs(s) * (nb ** abs(e3)) // (b ** abs(e3)), nb) + 2
                         yield Case("f.with_base_prec", [dec(nb), dec(max(need, 1)), farg(b, s, e3, max(1, ndigits(s, b)), mode)], nontrivial=True)
+    # the long-dividend path of the division branch (exp < 0, quotient longer than the precision: split_digits of the
+    #    integer quotient + round_ratio): quotients whose dropped digits are ALL ZERO (only the division remainder makes the
+    #    value inexact), exactly half, or just around it — shift = digits(q) - p in {1,2,3}
+    npairs = [(x, y) for (x, y) in PAIRS if not is_pow_related(x, y)]
+    for (b, nb) in (rng.sample(npairs, 4) if tier == "quick" else npairs):
+        for k in ([1, 5, 38] if tier == "quick" else [1, 2, 5, 17, 30, 38]):
+            den = b ** k
+            for p in (1, 2, 5):
+                for shift in (1, 2, 3):
+                    hi = rng.randrange(nb ** (p - 1), nb ** p)
+                    unit = nb ** shift
+                    for lo, r in ((0, 1), (0, den - 1), (0, den // 2), (0, rng.randrange(1, den)), (unit // 2, 0), (unit // 2, 1),
+                                  (unit // 2 - 1, den - 1), (unit - 1, den - 1)):
+                        a = (hi * unit + lo) * den + r
+                        if a % b == 0:
+                            a += 1
+                        for mode in (rng.sample(MODES, 2) if tier == "quick" else MODES):
+                            sg = rng.choice([1, -1])
+                            yield Case("f.with_base_prec", [dec(nb), dec(p), farg(b, sg * a, -k, ndigits(a, b), mode)], nontrivial=True)
     # the large-exponent branch: judged by exact arithmetic in the harness
     m = 150 if tier == "quick" else 6000
     for _ in range(m):
@@ -321,6 +376,92 @@ def generate(rng, tier):
     yield from gen_ieee(rng, tier)
 
 
+def _parse_farg(a):
+    t = a.split(":")
+    return int(t[1]), int(t[2], 16), int(t[3]), int(t[4]), t[5]
+
+
+def _pow(b, e):
+    from fractions import Fraction
+    return Fraction(b) ** e
+
+
+def _representable(x, nb, p):
+    """x = M * nb^j with |M| < nb^p ?"""
+    from math import gcd
+    if x == 0:
+        return True
+    n, d = abs(x.numerator), x.denominator
+    while d != 1:                       # scale by nb until the denominator is gone (possible iff d | nb^k)
+        if gcd(d, nb) == 1:
+            return False
+        n *= nb
+        g = gcd(n, d)
+        n, d = n // g, d // g
+    while n % nb == 0:
+        n //= nb
+    return n < nb ** p
+
+
+def judge(case, impl_out, model_out):
+    """`with_base` / `with_base_and_precision`: the property fixes the CONTRACT of the result (exact iff representable, otherwise
+    < 1 ulp — at most half an ulp for the nearest modes — on the mode's side, truthful flag, at most one digit beyond the
+    precision), not which of the admissible representations is returned (e.g. `repr_div` may hand back an exact quotient with
+    p+1 digits where `repr_round` would round it).  Everything else (parse, print, IEEE import, precision chosen by
+    `with_base`) is fixed by the property: no judgement, a disagreement is a violation."""
+    from fractions import Fraction
+    if case.op not in ("f.with_base", "f.with_base_prec"):
+        return "violates"
+    try:
+        ti, tm = impl_out.split(), model_out.split()
+        if ti[0] != "ok" or tm[0] != "ok" or len(ti) != 5:
+            return "violates"
+        nb = int(case.args[0].split(":")[1])
+        b, s, e, _prec, mode = _parse_farg(case.args[-1])
+        s2, e2, p2, flag = int(ti[1], 16), int(ti[2]), int(ti[3]), ti[4]
+        # the precision of the result is fixed (explicit argument, or the documented choice of with_base)
+        if p2 != int(tm[3]):
+            return "violates"
+        p = p2
+        if p < 1:
+            return "violates"
+        x = Fraction(s) * _pow(b, e)
+        r = Fraction(s2) * _pow(nb, e2)
+        if s2 != 0 and ndigits(s2, nb) > p + 1:
+            return "violates"
+        if flag == "Exact":
+            return "holds" if r == x else "violates"
+        if not flag.startswith("Inexact:") or r == x:
+            return "violates"
+        if _representable(x, nb, p):
+            return "violates"
+        # unit: the largest nb^u with nb^(u+p-1) <= |x|
+        ax = abs(x)
+        u = 0
+        while _pow(nb, u + p - 1) > ax:
+            u -= 1
+        while _pow(nb, u + p) <= ax:
+            u += 1
+        ulp = _pow(nb, u)
+        err = abs(r - x)
+        if mode in "EH":
+            if 2 * err > ulp:
+                return "violates"
+        elif err >= ulp:
+            return "violates"
+        side = {"Z": abs(r) <= ax and (r == 0 or (r > 0) == (x > 0)), "A": abs(r) >= ax, "U": r >= x, "D": r <= x}.get(mode, True)
+        if not side:
+            return "violates"
+        kind = flag.split(":")[1]
+        if kind == "AddOne" and not r > x:
+            return "violates"
+        if kind == "SubOne" and not r < x:
+            return "violates"
+        return "holds"
+    except Exception:
+        return "violates"
+
+
 def nontrivial(c):
     return c.nontrivial
 
@@ -358,33 +499,49 @@ REFINED = [
     "parsing the text returns exactly R*B^-p (print_precision_parse)",
     "FBig::with_precision (builder-float's model fWithPrecision, driven against the real code by C10): new precision p; rounding contract "
     "of C03 when digits are dropped, unchanged + Exact otherwise and for p = 0 (with_precision_contract, with_precision_unlimited)",
+    "Context::convert_base, EVERY path that does not go through ln/exp (same base; NewB = B^n; B = NewB^n; |exp| <= regenerated threshold: "
+    "multiplication for exp >= 0, repr_div — builder-float's reprDiv_contract, C03 — or the long-dividend single-rounding path of fix bd48ef9 "
+    "for exp < 0): the result is the exact value rounded under the contract (convert_base_exact_paths_contract, "
+    "convert_base_long_dividend_contract) and has at most p+1 digits of the new base (convert_base_result_digits)",
+    "width / fill / alignment / `+` / zero flag of Display (fmt_round) and of the scientific formats (fmt_round_scientific: LowerExp, UpperExp, "
+    "Binary, Octal, LowerHex, UpperHex incl. the 0x form): the text is fill^a ++ sign ++ [0x] ++ 0^b ++ core ++ fill^c with a core that does "
+    "not depend on any of them (display_padding_keeps_digits, scientific_padding_keeps_digits); Display text without width or with the zero "
+    "flag (any width, `+`) parses back to the same value / to the value rounded to the precision option "
+    "(padded_print_parse_round_trip, padded_print_precision_parse)",
+    "Binary / Octal / LowerHex / UpperHex of FBig (base 2: `b` and the hexadecimal form 0xh.hhp±e; base 8: `o`; base 16: `h`) and Debug of "
+    "FBig and Repr (plain and pretty, incl. the DoubleEnd integer form `123..456 (digits: N, bits: M)`): mirrored (fmtSciG, debugFBig, "
+    "debugRepr) and compared with the real code on every run, all fill/alignment/sign/zero flags",
 ]
 FRONTIER = [
     "str::parse::<isize>() of the scale (parseIsize) is shared by model and grammar: its own behaviour (sign, ASCII digits, 64-bit range) "
     "is compared with the real code at run time only; the theorems hold for 64-bit isize",
-    "Repr::fmt_round width/fill/alignment/`+` padding and fmt_round_scientific (LowerExp/UpperExp): mirrored incl. padding and compared "
-    "with the real code on every run; the executable displaySpec (roundInt of the rational value) is compared at run time, no theorem "
-    "links it to ModeSpec",
-    "Context::convert_base small-negative-exponent branch: builder-float's reprDiv model (C03) + the single-rounding path divRoundLong of fix bd48ef9; no theorem here",
+    "the padding AMOUNTS (width honoured exactly) of fmt_round / fmt_round_scientific and the digits of the scientific formats (rounding to "
+    "p+1 significant digits with carry, exponent adjustment) are mirrored and compared with the real code on every run; no theorem states "
+    "that the scientific text denotes the rounded value; the executable displaySpec (roundInt of the rational value) is compared at run "
+    "time, no theorem links it to ModeSpec",
     "Context::convert_base large-exponent branch (ln/exp at doubled precision): not mirrored; every case judged by exact rational arithmetic "
     "in the harness (digits, < 1 ulp, side, truthful flag, exact when representable) — the branch does NOT meet the contract (2 findings)",
     "Repr::new normalisation, repr_round, split_digits, round_fract, round_ratio: builder-float's models and theorems (C03/C10) are reused",
     "log2_bounds (f32 estimate used by with_base for non power-related bases): builder-nt's bit-exact Float32 replica (C12), no theorem",
-    "Binary/Octal/LowerHex/UpperHex of floats (hexadecimal scientific form) and Debug are not driven",
+    "Debug / radix-trait formatting of infinities is not driven (the case protocol carries finite values only)",
 ]
 THEOREMS = ["Dashu.Props.C08." + t for t in [
     "convert_base_pow_up_branch", "convert_base_pow_up_contract", "ilog_exact_sound", "convert_base_pow_down_branch",
     "convert_base_pow_down_contract", "convert_base_small_pos_contract", "exact_when_fits", "with_base_precision_documented",
     "from_ieee_exact", "parse_literal_exact", "print_parse_round_trip", "parse_eq_grammar", "grammar_digit_string", "parse_ok_denotes",
-    "print_precision_text", "print_precision_rounding", "print_precision_parse", "with_precision_contract", "with_precision_unlimited"]]
+    "print_precision_text", "print_precision_rounding", "print_precision_parse", "with_precision_contract", "with_precision_unlimited",
+    "display_padding_keeps_digits", "scientific_padding_keeps_digits", "padded_print_parse_round_trip", "padded_print_precision_parse",
+    "convert_base_long_dividend_contract", "convert_base_exact_paths_contract", "convert_base_result_digits"]]
 EXPLANATION = ("Partial. Proved for all bases, modes, precisions and operands: the three exact-evaluation branches of base conversion "
                "round the exact value (contract of C03: exact iff representable, else < 1 ulp on the mode's side, truthful flag); "
                "the documented with_base precision; exactness of the f32/f64 import; the literal parser equals the documented grammar on every byte "
                "string (all markers, underscores, hexadecimal form, error cases) and every accepted string denotes exactly its digits with "
                "precision = digit count; Display then parse returns an equal number; Display with a precision prints exactly that many "
-               "fractional digits of the value correctly rounded under the mode; with_precision meets the rounding contract. Width/fill "
-               "padding and the scientific formats are mirrored models compared on every run with the real code; the division branch of "
-               "base conversion reuses C03's model; the ln/exp conversion branch is judged per case by exact arithmetic.")
+               "fractional digits of the value correctly rounded under the mode; with_precision meets the rounding contract; every path of "
+               "convert_base that avoids ln/exp (incl. the division branch) rounds the exact value under the contract; padding (width, fill, "
+               "alignment, +, zero flag) never changes the digits and zero-padded Display text parses back to the same value. The digits of "
+               "the scientific formats (LowerExp/UpperExp/Binary/Octal/Hex) and Debug are mirrored models compared on every run with the "
+               "real code; the ln/exp conversion branch is judged per case by exact arithmetic.")
 ASSUMPTIONS = ["the f32 coarse test of round_fract decides like the exact comparison (C10)",
                "core::fmt delivers precision/width/flags as documented",
                "dashu-ratio arithmetic used by the harness judge of the ln/exp branch is exact (C04)"]
@@ -395,9 +552,11 @@ LEVEL_TEXT = ("PARTIAL. Machine-checked Lean 4 theorems, for every base >= 2, mo
               "string in every base 2..36 (sign, underscores, markers e b o h p @, hexadecimal form of base 2, all error cases), an accepted "
               "string denotes exactly the number its digits spell and the precision is the number of written digits; Display (no precision) "
               "followed by parsing returns an equal number; Display with precision p prints exactly p fractional digits of the value rounded "
-              "as the mode specifies, and parsing that text returns exactly the rounded value; with_precision meets the rounding contract. "
-              "Not proved but executed against the real code on every run: width/fill/+ padding, LowerExp/UpperExp, the division branch of "
-              "base conversion. The large-exponent branch (ln/exp) is checked per case with exact "
+              "as the mode specifies, and parsing that text returns exactly the rounded value; with_precision meets the rounding contract; "
+              "base conversion through every branch except ln/exp — including the division branch for small negative exponents — meets it "
+              "too; formatter padding never alters the digits and zero-padded text parses back to the same value. "
+              "Not proved but executed against the real code on every run: the digits of LowerExp/UpperExp/Binary/Octal/LowerHex/UpperHex, "
+              "the exact padding amounts, Debug. The large-exponent branch (ln/exp) is checked per case with exact "
               "rational arithmetic; it violates the contract on representable inputs and at small precisions (recorded findings).")
 LEVEL_NOTE = ("Trusted: Lean kernel; axioms propext/Classical.choice/Quot.sound; the correspondence harness, its exact-arithmetic judge "
               "(dashu-ratio) and the generators (sampling); builder-float's rounding model/theorems (C03, C10) and builder-nt's log2 "
